@@ -99,6 +99,7 @@ Qed.
 Section Key.
 Hypothesis Hmask : rec_low_mask = N.ones rec_partition_bits.
 Hypothesis Hbits : rec_partition_bits <= 16.
+Hypothesis Hreload : rec_apply_reloads_origin = true.
 
 Lemma rec_key_inj ws id ws' id' :
   ws < bound64 -> id < bound64 -> ws' < bound64 -> id' < bound64 ->
@@ -396,9 +397,8 @@ Proof.
   - intros c HI. specialize (HN c HI). destruct (lookup st (e_ws e) (c_id c)); [discriminate|reflexivity].
   - intros u HI. specialize (HFr u HI). apply andb_true_iff in HFr as [Hid HFr]. apply N.eqb_eq in Hid.
     destruct (lookup st (e_ws e) (u_id u)) as [o|] eqn:EL; [|discriminate].
-    apply andb_true_iff in HFr as [Ho Hb]. destruct (build_update o u) as [r|] eqn:EB; [|discriminate].
-    exists o, r. repeat split; auto. unfold eff_origin. rewrite Hid.
-    destruct (rec_empty (u_origin u)); [exact EL|]. cbn in Ho. apply rec_eqb_eq in Ho. congruence.
+    destruct (build_update o u) as [r|] eqn:EB; [|discriminate].
+    exists o, r. repeat split; auto. unfold eff_origin. rewrite Hreload, Hid. exact EL.
 Qed.
 
 Lemma ef_id_lt st e i : event_facts st e -> In i (event_ids e) -> i < bound64.
